@@ -81,6 +81,10 @@ extern int gs_val;
                                        go_n == SITES(p, g_o)._n && go_d == SITES(p, g_o)._d))  \
   __CPROVER_requires(g_w >= NPB(p) || g_s >= SITES(p, g_w)._n || gs_val == SITES(p, g_w)._d[g_s])
 
+/* N12 hook of GenState::backpatch: only contracts/gen_disp.c gives it a meaning */
+#if defined(MODEL_GHOST_DEFINE) && !defined(HAVE_BP_HOOK)
+void __verif_use_bp(int loc, unsigned long pos) {}
+#endif
 #define CODE_G_SAME(p) (g_c >= OLD(NC(p)) || (OPC(p, g_c) == gc_op && PAR(p, g_c, 0) == gc_p0 && PAR(p, g_c, 1) == gc_p1 && PAR(p, g_c, 2) == gc_p2))
 #define LI_IS(p, i, k, f, l) (LI(p)[i].first == (k) && LI(p)[i].second.file._id == (f) && LI(p)[i].second.line == (l))
 #define PB_O_SAME_AT(p, i) (BPEQ(PB(p)[i].first, go_file, go_line) && SITES(p, i)._n == go_n && SITES(p, i)._d == go_d)
